@@ -403,6 +403,13 @@ _OMD = _OMD + _cls_methods(OMD, 'boltons.dictutils', [
     {'py': 'getlist', 'name': 'getlist', 'params': {'k': 'κ', 'default': 'Option (List ν)'}, 'result': 'List ν',
      'tie_theorem': 'C01.src_getlist_eq_model'},
 ])
+# the generator `iterkeys(multi=False)`: walks the store with `while curr is not root` (loop fuel), the keys it yields are
+# read back out of the cells (K1 / K6), the local `yielded = set()` is the list of the keys added (K5 / K7)
+_OMD = _OMD + _cls_methods(OMD, 'boltons.dictutils', [
+    {'py': 'iterkeys', 'name': 'iterkeys', 'kind': 'generator', 'params': {'multi': 'Bool'}, 'result': 'κ',
+     'loop_fuel': True, 'key_locals': ['k'], 'yield_unbox': True, 'locals': {'yielded': 'List κ'},
+     'tie_theorem': 'C01.src_iterkeys_eq_model'},
+])
 OMD['methods'] = _OMD
 for _sp in _OMD:
     _sp['gen_file'] = 'dictutils_omd'
